@@ -1,8 +1,281 @@
 package main
 
-import "github.com/semihalev/sdns/zzverif/vlib"
+// Resolver phase: the FULL production chain (cache → … → resolver) against a
+// scripted authoritative universe, entered through Server.ServeMsg (the entry
+// DoH and DoQ use) by concurrent clients. In every batch K clients resolve K
+// different names (plus a few asking the same name) below a zone cut nobody
+// resolved before, while the parent's server holds its first answer behind a
+// gate: the K resolutions need the same upstream lookup at the same time, so
+// Resolver.groupLookup serves them from ONE wire lookup (leader + followers,
+// each follower gets a private copy with its own id). Each reply is judged by
+// the same provenance oracle (own id, own question, answer = f(question), no
+// foreign nonce); the race detector watches the shared response objects.
 
-// phaseResolver: placeholder until the authsim phase is written.
+import (
+	"context"
+	"fmt"
+	"net"
+	"os"
+	"strings"
+	"sync"
+	"time"
+
+	"github.com/miekg/dns"
+
+	"github.com/semihalev/sdns/config"
+	"github.com/semihalev/sdns/zzverif/authsim"
+	"github.com/semihalev/sdns/zzverif/vlib"
+	zm "github.com/semihalev/sdns/zzverif/zonemodel"
+)
+
+// capTransport is one client exchange on the decoded entry.
+type capTransport struct {
+	proto  string
+	remote net.Addr
+	local  net.Addr
+	mu     sync.Mutex
+	raws   [][]byte
+}
+
+func newCapTransport(proto, ip string, port int) *capTransport {
+	t := &capTransport{proto: proto}
+	if proto == "doq" {
+		t.remote = &net.UDPAddr{IP: net.ParseIP(ip), Port: port}
+		t.local = &net.UDPAddr{IP: net.IPv4(127, 0, 0, 1), Port: 853}
+	} else {
+		t.remote = &net.TCPAddr{IP: net.ParseIP(ip), Port: port}
+		t.local = &net.TCPAddr{IP: net.IPv4(127, 0, 0, 1), Port: 443}
+	}
+	return t
+}
+
+func (t *capTransport) LocalAddr() net.Addr  { return t.local }
+func (t *capTransport) RemoteAddr() net.Addr { return t.remote }
+func (t *capTransport) Proto() string        { return t.proto }
+func (t *capTransport) Close() error         { return nil }
+func (t *capTransport) Write(b []byte) (int, error) {
+	t.mu.Lock()
+	t.raws = append(t.raws, append([]byte(nil), b...))
+	t.mu.Unlock()
+	return len(b), nil
+}
+func (t *capTransport) WriteMsg(m *dns.Msg) error {
+	if t.proto == "doq" {
+		m.Id = 0
+	}
+	b, err := m.Pack()
+	if err != nil {
+		return err
+	}
+	_, err = t.Write(b)
+	return err
+}
+
 func phaseResolver(r *vlib.Run) {
-	r.Count("resolver_placeholder", 1)
+	batches := r.N(60, 600)
+	u := authsim.New()
+	defer u.Close()
+	sr, st, sz, sb := u.AddServer("root"), u.AddServer("tld"), u.AddServer("c10"), u.AddServer("leaf")
+	root := u.AddZone(zm.Spec{Apex: "."}, sr)
+	tld := u.AddZone(zm.Spec{Apex: "test."}, st)
+	c10 := u.AddZone(zm.Spec{Apex: zoneSuffix}, sz)
+	u.Delegate(root, tld, authsim.DelegOpts{})
+	u.Delegate(tld, c10, authsim.DelegOpts{})
+	for i := 0; i < batches; i++ {
+		apex := fmt.Sprintf("b%d.n.%s", i, zoneSuffix)
+		z := u.AddZone(zm.Spec{Apex: apex}, sb)
+		u.Delegate(c10, z, authsim.DelegOpts{})
+	}
+	// the leaf server answers every "<nonce>.b<i>.n.c10.test." with f(question)
+	leafAnswer := authsim.Tamper("f(question)", func(q, honest *dns.Msg) *dns.Msg {
+		m := new(dns.Msg)
+		m.SetReply(q)
+		m.Authoritative = true
+		qq := q.Question[0]
+		m.Answer = answerFor(qq.Name, qq.Qtype, qq.Qclass)
+		if opt := q.IsEdns0(); opt != nil {
+			m.SetEdns0(1232, opt.Do())
+		}
+		return m
+	})
+	isLeafName := func(p *authsim.Packet) bool { return kindOfName(p.QName) == "n" }
+
+	rs, err := u.NewResolverStack(func(c *config.Config) {
+		c.DNSSEC = "off"
+		c.RootKeys = nil
+		c.NSID = serverNSID
+		c.RateLimit, c.ClientRateLimit = 0, 0
+		c.AccessList = []string{"0.0.0.0/0", "::0/0"}
+	})
+	if err != nil {
+		r.Inconclusive("resolver phase: " + err.Error())
+		return
+	}
+	defer rs.Close()
+
+	for b := 0; b < batches; b++ {
+		rng := r.RandN("resolver/batch", b)
+		k := 6 + rng.IntN(10)
+		type cl struct {
+			ep *endpoint
+			q  *query
+			t  *capTransport
+		}
+		var cls []*cl
+		spec := &clientSpec{label: fmt.Sprintf("b%d", b), tr: "doh"}
+		gen := &genCtx{rng: rng, spec: spec, usedIDs: map[string]map[uint16]bool{}}
+		var sharedQ *query
+		for i := 0; i < k; i++ {
+			proto := []string{"doh", "doq", "tcp"}[rng.IntN(3)]
+			ip := fmt.Sprintf("127.%d.%d.%d", 2+rng.IntN(60), 1+rng.IntN(250), 2+rng.IntN(250))
+			tr := proto
+			if tr == "tcp" {
+				tr = "doh" // judged as an exchange: the transport object is per query
+			}
+			ep := newEndpoint(r, "resolver", fmt.Sprintf("resolver/b%d#%d(%s)", b, i, proto), tr, ip)
+			var q *query
+			if sharedQ != nil && rng.IntN(4) == 0 {
+				// the same question from another client (cache-level dedup)
+				gen.asked = []*query{sharedQ}
+				q = gen.genQuery(kHit)
+			} else {
+				q = gen.genQuery(kNormal)
+				if sharedQ == nil {
+					sharedQ = q
+				}
+			}
+			cls = append(cls, &cl{ep: ep, q: q, t: newCapTransport(proto, ip, 20000+rng.IntN(20000))})
+		}
+		// One pair per batch asks the SAME name with different spelling and
+		// different CD bits: the cache keeps CD=0 and CD=1 apart, so both
+		// requests reach the resolver, whose shared lookup serves both.
+		{
+			base := gen.genQuery(kNormal)
+			ip := fmt.Sprintf("127.%d.%d.%d", 2+rng.IntN(60), 1+rng.IntN(250), 2+rng.IntN(250))
+			lower := strings.ToLower(base.Name)
+			for i, name := range []string{lower, spellOther(lower)} {
+				m := new(dns.Msg)
+				m.SetQuestion(name, base.Qtype)
+				m.Id = uint16(0x4000 + 2*b + i)
+				m.CheckingDisabled = i == 1
+				pkt, _ := m.Pack()
+				kind := kNormal
+				if i == 1 {
+					kind = kHit
+				}
+				q := &query{Kind: kind, KindS: kind.String(), ID: m.Id, Name: name, Qtype: base.Qtype, Qclass: dns.ClassINET, Nonce: base.Nonce, pkt: pkt}
+				registry.names.LoadOrStore(name, fmt.Sprintf("b%d/cd-split-%d", b, i))
+				ep := newEndpoint(r, "resolver", fmt.Sprintf("resolver/b%d#cd%d", b, i), "doh", ip)
+				cls = append(cls, &cl{ep: ep, q: q, t: newCapTransport("tcp", ip, 30000+i)})
+			}
+			r.Count("resolver_cd_split_pairs", 1)
+		}
+
+		// Two gates per batch. gA: the parent's server holds everything below
+		// "n.c10.test." — the walk's "n.c10.test. <qtype>" lookups are
+		// identical for all clients of the batch with that qtype. gB: the leaf
+		// server holds the final answers, so same-question requests that the
+		// cache did not collapse are in the resolver together.
+		gA, gB := authsim.NewGate(), authsim.NewGate()
+		sz.ClearScript(false)
+		sz.AddRule(authsim.Rule{Name: "*.n." + zoneSuffix, Action: authsim.Honest().Gated(gA)})
+		sb.ClearScript(false)
+		sb.AddRule(authsim.Rule{Name: "*.n." + zoneSuffix, Match: isLeafName, Action: leafAnswer.Gated(gB)})
+		from := u.Log.Len()
+		var wg sync.WaitGroup
+		started := make(chan struct{}, len(cls))
+		for _, c := range cls {
+			c := c
+			wg.Add(1)
+			go func() {
+				defer wg.Done()
+				m := new(dns.Msg)
+				if err := m.Unpack(c.q.pkt); err != nil {
+					started <- struct{}{}
+					return
+				}
+				c.ep.register(c.q)
+				started <- struct{}{}
+				ctx, cancel := context.WithTimeout(context.Background(), 20*time.Second)
+				defer cancel()
+				rs.Server.ServeMsg(ctx, c.t, m)
+			}()
+		}
+		for range cls {
+			<-started
+		}
+		// pacing only (perturbation): what was shared is OBSERVED below from
+		// the upstream packet log, never assumed from these waits
+		pace := func(g *authsim.Gate) {
+			deadline := time.Now().Add(400 * time.Millisecond)
+			for g.Waiting() == 0 && time.Now().Before(deadline) {
+				time.Sleep(time.Millisecond)
+			}
+			time.Sleep(time.Duration(5+rng.IntN(20)) * time.Millisecond)
+			g.Release()
+		}
+		pace(gA)
+		pace(gB)
+		wg.Wait()
+
+		// ---- judge
+		for _, c := range cls {
+			c.t.mu.Lock()
+			raws := c.t.raws
+			c.t.mu.Unlock()
+			if len(raws) == 0 {
+				r.Count("resolver_exchanges_without_reply", 1)
+			}
+			for _, raw := range raws {
+				c.ep.judge(raw, c.q)
+				r.Count("resolver_replies_judged", 1)
+			}
+			c.ep.flush()
+		}
+		// ---- sharing observed, per qtype: resolutions that needed the
+		// "n.c10.test. <qtype>" lookup (distinct client questions of that type)
+		// versus wire lookups the gated server saw for it. That server has two
+		// addresses and the resolver asks both, so one lookup shows as up to
+		// two packets.
+		if os.Getenv("C10_DEBUG") != "" && b < 2 {
+			for _, p := range u.Log.Since(from) {
+				fmt.Fprintln(os.Stderr, p.String())
+			}
+		}
+		need := map[uint16]map[string]bool{}
+		for _, c := range cls {
+			if need[c.q.Qtype] == nil {
+				need[c.q.Qtype] = map[string]bool{}
+			}
+			need[c.q.Qtype][strings.ToLower(c.q.Name)] = true
+		}
+		seen := map[uint16]int{}
+		for _, p := range u.Log.Since(from) {
+			if p.Server == "c10" && strings.EqualFold(p.QName, "n."+zoneSuffix) {
+				seen[p.QType]++
+			}
+		}
+		for qt, names := range need {
+			if pk := seen[qt]; pk > 0 && len(names) >= 2 && (pk+1)/2 < len(names) {
+				r.Count("resolver_shared_lookups_observed", 1)
+				r.Count("resolver_lookups_saved_by_sharing", len(names)-(pk+1)/2)
+			}
+		}
+		r.Count("resolver_batches", 1)
+		r.Max("resolver_batch_clients_max", int64(k))
+		r.Progress("resolver batch %d", b)
+	}
+	r.Count("rounds_completed", 1)
+}
+
+// spellOther returns name with every letter after the nonce label in the
+// other case (so it differs from the all-lower spelling in every letter).
+func spellOther(lower string) string {
+	b := []byte(lower)
+	for i := 25; i < len(b); i++ {
+		if b[i] >= 'a' && b[i] <= 'z' && i%2 == 0 {
+			b[i] -= 'a' - 'A'
+		}
+	}
+	return string(b)
 }
